@@ -18,7 +18,7 @@ use vrp_core::models::problem::{
 };
 use vrp_core::models::solution::{Route, Tour};
 use vrp_pragmatic::format::problem::{Matrix, PragmaticProblem, create_approx_matrices, deserialize_problem};
-use vrp_pragmatic::format::{CoordIndexExtraProperty, Location as ApiLocation};
+use vrp_pragmatic::format::{CoordIndexExtraProperty, Location as ApiLocation, ShiftIndexDimension};
 use vverif::{PanicInfo, Rng, Run, mix, par_for};
 
 const PARTS: [&str; 5] = ["core", "reject", "pragmatic", "approx", "scientific"];
@@ -97,6 +97,7 @@ fn main() {
     run.floor("pragmatic.scale", run.observed("pragmatic.features", "scale!=1"), 10);
     run.floor("pragmatic.unknown-location", run.observed("pragmatic.entries", "unknown-location"), 10);
     run.floor("approx.matrices", run.observed("approx", "create_approx_matrices"), 20);
+    run.floor("pragmatic: actors with a required break queried through the reserved-time aware provider", run.observed("pragmatic.provider", "reserved-time wrapper, actor with a required break"), 1000);
     run.floor("approx.read", run.observed("approx", "read_pragmatic(approx)"), 20);
     run.floor("scientific.rounded", run.observed("scientific", "rounded"), 20);
     run.floor("scientific.exact", run.observed("scientific", "exact"), 20);
@@ -1074,6 +1075,9 @@ struct PType {
     cost_time: f64,
     /// (start location id, end location id) per shift; `usize::MAX` start = location of type `unknown`.
     shifts: Vec<(usize, Option<usize>)>,
+    /// required break (earliest, latest, duration) per shift: the reader then wraps the provider of the whole problem
+    /// into the reserved-time aware one, which must still return the supplied data outside the reserved time
+    required_breaks: Vec<Option<(i64, i64, i64)>>,
 }
 
 struct PragCase {
@@ -1155,6 +1159,7 @@ fn gen_pragmatic_case(rng: &mut Rng, with_matrices: bool) -> PragCase {
                 cost_distance: *rng.pick(&[1.0, 0.5, 0.0002]),
                 cost_time: *rng.pick(&[1.0, 0.0, 0.004806]),
                 shifts: vec![(0, None); rng.range_usize(1, 2)],
+                required_breaks: vec![],
             }
         })
         .collect();
@@ -1246,6 +1251,11 @@ fn gen_pragmatic_case(rng: &mut Rng, with_matrices: bool) -> PragCase {
             if let Some(end) = end {
                 shift["end"] = json!({"latest": rfc3339(to, 0), "location": loc_json(end)});
             }
+            let brk = if rng.chance(0.3) { Some((from + 30_000, from + 30_000 + rng.range_i64(0, 600), *rng.pick(&[60i64, 600, 1800]))) } else { None };
+            if let Some((earliest, latest, duration)) = brk {
+                shift["breaks"] = json!([{"time": {"earliest": rfc3339(earliest, 0), "latest": rfc3339(latest, 0)}, "duration": duration as f64}]);
+            }
+            t.required_breaks.push(brk);
             shifts_json.push(shift);
         }
         let mut profile = json!({"matrix": t.profile});
@@ -1476,6 +1486,13 @@ fn pragmatic_case(run: &Run, case_seed: u64) {
             times.sort();
             times.dedup();
             let route = route_of(actor);
+            // reserved time of this actor's shift (required break): trips touching it are legitimately longer
+            let reserved = actor.vehicle.dimens.get_shift_index().and_then(|si| t.required_breaks.get(*si).copied().flatten());
+            if case.types.iter().any(|t| t.required_breaks.iter().any(|b| b.is_some())) {
+                obs.hit("pragmatic.provider", if reserved.is_some() { "reserved-time wrapper, actor with a required break" } else { "reserved-time wrapper, actor without a required break" });
+            } else {
+                obs.hit("pragmatic.provider", "plain matrix provider");
+            }
             if n >= 2 && (case.profiles.len() >= 2 || case.aware || scale != 1.0 || ms.iter().any(|m| m.err.is_some())) {
                 nontrivial = true;
             }
@@ -1515,7 +1532,11 @@ fn pragmatic_case(run: &Run, case_seed: u64) {
                         reachable_n += 1;
                         let exp_dur = e.dur * scale;
                         let exact = e.class != "between-brackets";
-                        let dur_ok = if exact { d == exp_dur } else { close(d, exp_dur) };
+                        let touches_reserved = reserved.is_some_and(|(earliest, latest, duration)| (tq as f64) <= (latest + duration + 1) as f64 && tq as f64 + exp_dur.max(d) >= (earliest - 1) as f64);
+                        if touches_reserved {
+                            obs.hit("pragmatic.entries", "duration not judged: trip touches the reserved time");
+                        }
+                        let dur_ok = touches_reserved || if exact { d == exp_dur } else { close(d, exp_dur) };
                         if !dur_ok {
                             let te = spec_at(&spec_ms, b * n + a, tq);
                             let dg = if exact { diag(d, scale, e.dur, "scale-missing", te.dur * scale) } else { "-" };
